@@ -1,5 +1,6 @@
 import Grexv.Model.Api
 import Grexv.Lemmas.Lex
+import Grexv.Lemmas.EndToEnd
 
 /-!
 # C07 — build() is total and returns a syntactically valid regex; panics only where documented
@@ -88,6 +89,43 @@ theorem unanchored_build_sites (cfg : Config) (env : Env) (ws : List Str) (e : P
           repeat' (split at he)
           all_goals simp at he
     · simp at he
+
+/-- the refinement loop always terminates within its fuel (Lemmas/HopcroftFuel.lean), so that site is dead -/
+theorem fuel_site_dead (cfg : Config) (env : Env) (ws : List Str) :
+    regExpFrom cfg env ws ≠ .error (.index "minimize: fuel") := by
+  intro he
+  obtain ⟨p, hp⟩ := Dfa.minimizePartition_some (Dfa.trie (graphemeClusters cfg env (sortCases (if cfg.ci then lowerCases env ws else ws))))
+  unfold regExpFrom at he
+  simp only [Dfa.minimize, hp, Option.map_some] at he
+  repeat' split at he
+  all_goals try (cases he)
+  all_goals (rename_i hq; repeat' split at hq)
+  all_goals cases hq
+
+/-- **C07 (totality)** with at least one anchor in place the model of `RegExp::from` returns, for every
+configuration, segmentation and list of test cases -/
+theorem anchored_build_total (cfg : Config) (env : Env) (ws : List Str) (h : ¬ (cfg.noStart = true ∧ cfg.noEnd = true)) :
+    ∃ st, regExpFrom cfg env ws = .ok st := by
+  cases hr : regExpFrom cfg env ws with
+  | ok st => exact ⟨st, rfl⟩
+  | error e =>
+    have := anchored_build_sites cfg env ws h e hr
+    subst this
+    exact absurd hr (fuel_site_dead cfg env ws)
+
+/-- **C07 (totality, both anchors off)** the only failure left is the `unwrap()` on the verbose candidate re-compiled
+with its line breaks removed -/
+theorem unanchored_build_only_site (cfg : Config) (env : Env) (ws : List Str) (e : Panic)
+    (he : regExpFrom cfg env ws = .error e) : ∃ s, e = .regexInvalid s := by
+  rcases unanchored_build_sites cfg env ws e he with h | h
+  · subst h; exact absurd he (fuel_site_dead cfg env ws)
+  · exact h
+
+/-- **C07 (validity, default settings, all inputs)** the returned text is accepted by the model of `Regex::new` -/
+theorem default_output_valid (cap : Bool) (env : Env) (ws : List Str) (st : Stages)
+    (h : regExpFrom (cfgPlain cap) env ws = .ok st) (hseg : ∀ w ∈ ws, SegOK env w) :
+    ∃ P, Spec.parse (fmtRegExp (cfgPlain cap) st.finalAst) = some (⟨false, false⟩, P) :=
+  default_valid cap env ws st h hseg
 
 /-! ## syntactic validity at the literal level (generated escape lists) -/
 
